@@ -17,6 +17,12 @@ for name in sorted(os.listdir(root)):
         name, m["breaks_property"], n.get("what", ""), m["needs_to_manifest"],
         ("**" + ", ".join(rules) + "**") if det else "not detected",
         n.get("history", "")))
-print("| seed | property | change | needs | caught by (now) | history |")
-print("|---|---|---|---|---|---|")
-print("\n".join(rows))
+table = "| seed | property | change | needs | caught by (now) | history |\n|---|---|---|---|---|---|\n" + "\n".join(rows)
+import sys
+if "--write" in sys.argv:
+    p = "/verif/DESIGN.md"; s = open(p).read()
+    a = s.index("<!-- SEEDED-BEGIN -->") + len("<!-- SEEDED-BEGIN -->"); b = s.index("<!-- SEEDED-END -->")
+    open(p, "w").write(s[:a] + "\n" + table + "\n" + s[b:])
+    print("wrote %d rows" % len(rows))
+else:
+    print(table)
